@@ -159,14 +159,15 @@ template <int D> RefSpline<LD> ref_solve_ld(int S, const Problem<D> &p) {
   return ref_solve<LD>(S, T, P, bs, be);
 }
 
-// ----- R2: forward-mode jets over long double -----
+// ----- R2: forward-mode jets over long double (derivatives w.r.t. the segment durations; N <= JMAX) -----
+static const int JMAX = 12;
 struct Dual {
-  LD v; std::vector<LD> d;
+  LD v; LD d[JMAX];
   static int &n() { static int k = 0; return k; }
-  Dual() : v(0), d(n(), 0) {}
-  Dual(LD x) : v(x), d(n(), 0) {}
-  Dual(double x) : v(x), d(n(), 0) {}
-  Dual(int x) : v(x), d(n(), 0) {}
+  Dual() : v(0) { for (int i = 0; i < JMAX; ++i) d[i] = 0; }
+  Dual(LD x) : v(x) { for (int i = 0; i < JMAX; ++i) d[i] = 0; }
+  Dual(double x) : v(x) { for (int i = 0; i < JMAX; ++i) d[i] = 0; }
+  Dual(int x) : v(x) { for (int i = 0; i < JMAX; ++i) d[i] = 0; }
   static Dual var(LD x, int i) { Dual r(x); r.d[i] = 1; return r; }
 };
 inline Dual operator+(const Dual &a, const Dual &b) { Dual r(a.v + b.v); for (int i = 0; i < Dual::n(); ++i) r.d[i] = a.d[i] + b.d[i]; return r; }
@@ -178,27 +179,47 @@ inline bool operator<(const Dual &a, const Dual &b) { return a.v < b.v; }
 inline bool operator>(const Dual &a, const Dual &b) { return a.v > b.v; }
 inline bool operator==(const Dual &a, const Dual &b) { return a.v == b.v; }
 
-// Jets of the 1-D reference construction map for coordinate d of problem p.
-// Input ordering: T_0..T_{N-1}, P_0..P_N, start k=1..S-1, end k=1..S-1   (nin = N + N+1 + 2(S-1))
-template <int D> RefSpline<Dual> ref_solve_jets(int S, const Problem<D> &p, int d) {
-  int N = p.N, nin = N + (N + 1) + 2 * (S - 1);
-  Dual::n() = nin; int k = 0;
-  std::vector<Dual> T(N); for (int i = 0; i < N; ++i) T[i] = Dual::var(p.T[i], k++);
-  std::vector<std::vector<Dual>> P(N + 1, std::vector<Dual>(1)), bs(3, std::vector<Dual>(1)), be(3, std::vector<Dual>(1));
-  for (int i = 0; i <= N; ++i) P[i][0] = Dual::var(p.P(i, d), k++);
-  for (int q = 1; q <= S - 1; ++q) bs[q - 1][0] = Dual::var(bc_ref(p.bc, 0, q)(d), k++);
-  for (int q = 1; q <= S - 1; ++q) be[q - 1][0] = Dual::var(bc_ref(p.bc, 1, q)(d), k++);
-  return ref_solve<Dual>(S, T, P, bs, be);
+// Exact Jacobian of the reference construction map (T, data) -> coefficients for fixed durations T.
+//   C[b][r]      coefficient r (= seg*2S + k) of the 1-D reference spline for basis data vector b
+//   dT[b][r][i]  d C[b][r] / d T_i          (jets through the dense solve)
+// The map is linear in the data, so for data = sum_b alpha_b e_b:  c = sum alpha_b C[b],  dc/dT = sum alpha_b dT[b],
+// and dc/d(data component j) = C[j]  (data-independent).
+struct RefJac {
+  int S = 0, N = 0, nb = 0, M = 0;
+  std::vector<std::vector<LD>> C;
+  std::vector<std::vector<std::vector<LD>>> dT;
+};
+inline RefJac ref_jacobian(int S, const std::vector<double> &T) {
+  RefJac J; J.S = S; J.N = (int)T.size(); J.nb = nbasis(S, J.N); J.M = 2 * S;
+  int N = J.N, nb = J.nb;
+  if (N > JMAX) { fprintf(stderr, "ref_jacobian: N too large\n"); abort(); }
+  Dual::n() = N;
+  std::vector<Dual> Td(N); for (int i = 0; i < N; ++i) Td[i] = Dual::var((LD)T[i], i);
+  std::vector<std::vector<Dual>> P(N + 1, std::vector<Dual>(nb)), bs(3, std::vector<Dual>(nb)), be(3, std::vector<Dual>(nb));
+  for (int b = 0; b < nb; ++b) {
+    if (b <= N) P[b][b] = Dual((LD)1); else { int r = b - (N + 1), side = r / (S - 1), k = r % (S - 1) + 1; (side == 0 ? bs : be)[k - 1][b] = Dual((LD)1); }
+  }
+  RefSpline<Dual> R = ref_solve<Dual>(S, Td, P, bs, be);
+  int n = J.M * N;
+  J.C.assign(nb, std::vector<LD>(n)); J.dT.assign(nb, std::vector<std::vector<LD>>(n, std::vector<LD>(N)));
+  for (int b = 0; b < nb; ++b) for (int r = 0; r < n; ++r) { J.C[b][r] = R.C[r][b].v; for (int i = 0; i < N; ++i) J.dT[b][r][i] = R.C[r][b].d[i]; }
+  return J;
+}
+// data of problem p, coordinate d, expressed in the basis (alpha_b)
+template <int D> inline std::vector<LD> data_alpha(int S, const Problem<D> &p, int d) {
+  int N = p.N, nb = nbasis(S, N); std::vector<LD> a(nb);
+  for (int i = 0; i <= N; ++i) a[i] = p.P(i, d);
+  for (int side = 0; side < 2; ++side) for (int k = 1; k <= S - 1; ++k) a[(N + 1) + side * (S - 1) + (k - 1)] = bc_ref(p.bc, side, k)(d);
+  return a;
 }
 
-// Read a library Gradients struct (any order) into the same input ordering for coordinate d.
-template <int S, class G> std::vector<double> grads_to_vec(const G &g, int N, int d) {
-  std::vector<double> out(N + (N + 1) + 2 * (S - 1));
-  for (int i = 0; i < N; ++i) out[i] = g.times(i);
-  out[N] = g.start.p(d);
-  for (int i = 1; i < N; ++i) out[N + i] = g.inner_points(i - 1, d);
-  out[2 * N] = g.end.p(d);
-  int o = 2 * N + 1;
+// Read a library Gradients struct into basis ordering for coordinate d: out[b] = d/d(data component b), b < nb.
+template <int S, class G> std::vector<double> grads_data_vec(const G &g, int N, int d) {
+  std::vector<double> out(nbasis(S, N));
+  out[0] = g.start.p(d);
+  for (int i = 1; i < N; ++i) out[i] = g.inner_points(i - 1, d);
+  out[N] = g.end.p(d);
+  int o = N + 1;
   out[o] = g.start.v(d);
   if constexpr (S >= 3) out[o + 1] = g.start.a(d);
   if constexpr (S >= 4) out[o + 2] = g.start.j(d);
